@@ -79,11 +79,20 @@ ViewAssign(x, i, j, n) == LET o == arr[Other(x)] IN
                           /\ Set(x, [k \in 1..Len(arr[x]) |-> IF k > i /\ k <= i + n THEN o[j + (k - i)] ELSE arr[x][k]],
                                  [op |-> "viewAssign", x |-> x, i |-> i, j |-> j, n |-> n])
 
+\* a NON-OWNER Array_ handle onto the elements [i, i+n) of x (DontCopy constructor / shareData): it may write
+\* the elements it refers to (w = 1: all of them become v) and is then dropped in one of several ways (destructor,
+\* deallocate(), re-pointed elsewhere, moved or swapped into another handle that is dropped): the referenced data
+\* are otherwise untouched and no element is constructed or destroyed.
+Handle(x, i, n, v, w, how) == /\ i \in 0..Len(arr[x]) /\ n \in 0..(Len(arr[x]) - i) /\ w \in {0, 1} /\ how \in 0..4
+                              /\ Set(x, [k \in 1..Len(arr[x]) |-> IF w = 1 /\ k > i /\ k <= i + n THEN v ELSE arr[x][k]],
+                                     [op |-> "handle", x |-> x, i |-> i, n |-> n, v |-> v, j |-> w, k |-> how])
+
 Next == \E x \in Arr, v \in Vals, i \in 0..MaxLen, j \in 0..MaxLen, n \in 0..MaxLen :
           \/ PushBack(x, v) \/ EmplaceBack(x, v) \/ PopBack(x) \/ Insert1(x, i, v) \/ InsertN(x, i, n, v) \/ InsertRange(x, i, j, n)
           \/ Erase1(x, i) \/ EraseR(x, i, j) \/ EraseFast(x, i) \/ Resize(x, n) \/ ResizeV(x, n, v) \/ Reserve(x, n) \/ Shrink(x)
           \/ AssignN(x, n, v) \/ AssignRange(x, i, j) \/ Clear(x) \/ Swap \/ CopyAssign(x) \/ CopyConstruct(x) \/ MoveAssign(x)
           \/ SetElt(x, i, v) \/ ViewFill(x, i, n, v) \/ ViewAssign(x, i, j, n)
+          \/ \E w \in {0, 1}, how \in 0..4 : Handle(x, i, n, v, w, how)
 Spec == Init /\ [][Next]_vars
 
 \* what the harness must observe after the action
